@@ -26,7 +26,7 @@ def classify(r, st, bits):
     mn = st.get("mn", "") if st else ""
     sh = shape(st)
     obs = r.get("obs") or []
-    if k == "ins" and any(o["t"] == "m" and o.get("lab") for o in st["ops"]):
+    if k == "ins" and any(o["t"] == "m" and o.get("lab") and not str(o.get("lab")).startswith("DQ") for o in st["ops"]):
         return "D_UndefinedIsZero"       # a label inside brackets is never resolved: displacement 0
     if "undefined" in why:
         return "D_UndefinedIsZero"
